@@ -89,7 +89,7 @@ class Preemptive:
             return                  # the runner of an excursion is not pre-empted
         code = frame.f_code
         if self.pin is not None:
-            who, mode, k = self.pin
+            who, mode, k = self.pin[:3]
             if me != who or (mode == "ctor" and code.co_name != "__init__"):
                 return
             self.pin_count += 1
@@ -104,7 +104,10 @@ class Preemptive:
             site = (os.path.basename(code.co_filename), frame.f_lineno)
             self.sites.add(site)
             self.switches += 1
-            self.excursion = (me, nxt)
+            # pin[3] == "all": the other task runs to its end, not just
+            # through one call
+            self.excursion = [me, nxt, None if (len(self.pin) > 3 and
+                                                self.pin[3] == "all") else 1]
             self.excursions += 1
             self.log.update(f"{me}>>!{nxt}@{site[0]}:{site[1]};".encode())
             self.events[me].clear()
@@ -126,7 +129,11 @@ class Preemptive:
         self.switches += 1
         kind = ">"
         if self.p_excursion and self.rng.random() < self.p_excursion:
-            self.excursion = (me, nxt)
+            # length of the excursion in library calls of the other task:
+            # mostly one; sometimes a few, or its whole remaining life
+            length = 1 if self.rng.random() < 0.7 else \
+                self.rng.choice((2, 5, None))
+            self.excursion = [me, nxt, length]
             self.excursions += 1
             kind = ">>"
         self.log.update(f"{me}{kind}{nxt}@{site[0]}:{site[1]};".encode())
@@ -178,7 +185,10 @@ class Preemptive:
             self.tls.depth -= 1
             if self.tls.depth == 0 and self.excursion is not None \
                     and self.excursion[1] == self.tls.me:
-                self.end_excursion(self.tls.me)
+                if self.excursion[2] is not None:
+                    self.excursion[2] -= 1
+                    if self.excursion[2] <= 0:
+                        self.end_excursion(self.tls.me)
         return self._local_trace
 
     # -- tasks -------------------------------------------------------------
